@@ -99,6 +99,7 @@ def to_trace_events(evs, opts_by_engine=None):
                             null=e["null"], srcsame=e["srcsame"], inplace=inplace, wrote=e["wrote"], needfile=e["fam"].endswith("_file"),
                             rng=e["rng"], rand=e["rand"], len=e["len"]))
         elif e["e"] == "eng":
+            if e["op"] == "lang": continue            # (the key of the conversions that follow carries the language)
             out.append(dict(e="eng", op=e["op"], src=e.get("src", "")))
         elif e["e"] == "reset":
             out.append(dict(e="reset"))
@@ -190,13 +191,16 @@ def run(tier, seed):
     corp = docs.corpus()
     cn = sorted(corp)
     copts = [("html", docs.STD, "en"), ("html", docs.COMPAT, "en"), ("latex", docs.STD, "en"), ("fodt", docs.STD, "en"), ("opml", docs.STD, "en"), ("beamer", docs.STD, "de")]
-    cscripts = []
+    cscripts = []; langs_used = set()
     for hno in range(8 if tier == "quick" else 48):
         names = rnd.sample(cn, 10 if tier == "quick" else 14)
         o = rnd.choice(copts)
         s = []
         s.append(line("e_new", 0, names[0], o[1], docs.LANG[o[2]]))
         for nm in names:
+            if hno % 2:
+                # the language of the live engine changes between conversions (every language, and codes the library has no quote style for)
+                lg = rnd.choice(sorted(docs.LANG.values()) + [6, 6]); s.append(line("e_lang", 0, lg)); langs_used.add((nm, o[0], o[1], lg))
             s.append(line("e_settext", 0, nm)); s.append(line("e_conv", 0, docs.FMT[o[0]]))
             o2 = rnd.choice(copts); s.append(conv_line(rnd.choice(FAMS), rnd.choice(names), o2))
         s.append(line("e_free", 0))
@@ -214,7 +218,8 @@ def run(tier, seed):
     cscripts2 = [remap(s) for _, s in cscripts]
     used = sorted({nm for names, _ in cscripts for nm in names})
     cpool = {idmap[nm]: corp[nm] for nm in used}
-    crefs = sorted({(idmap[nm], o) for nm in used for o in copts}, key=str)
+    LN = {v: k for k, v in docs.LANG.items()}
+    crefs = sorted({(idmap[nm], o) for nm in used for o in copts} | {(idmap[nm], (f, x, LN[lg])) for (nm, f, x, lg) in langs_used}, key=str)
     p2, trace2 = run_session(chk, exe, cpool, crefs, cscripts2, "corpus")
     problems += p2
     nconv += len([e for e in trace2 if e["e"] == "conv"])
